@@ -46,6 +46,7 @@ class Machine:
         self.event_sites = set()  # (fn, bb)
         self.site_info = {}      # where -> (fn, bb)
         self._block_cache = {}
+        self.stops = set()       # (fn, bb): arriving there ends the exploration (region summaries)
 
     # ---- which local functions carry events (transitively) ------------------------------------
     def local_callee(self, t):
@@ -204,6 +205,9 @@ class Machine:
         fn, bb, envt = frames[-1]
         body = self.F.bodies[fn]
         env = dict(envt)
+        if (fn, bb) in self.stops and len(frames) == 1:
+            t0 = env.get(0)
+            return [("exit", "Err" if (t0 and t0[0] == "t" and t0[1] == "Err") else "Ok")]
         for s in body.stmts(bb):
             if s["k"] == "assign":
                 p = s["p"]
